@@ -393,6 +393,15 @@ def check_prop(case, ctx):
     s = np.ascontiguousarray(E[..., 0, 1])
     U.check_close(np.asarray(ctx.call(g, s, *a, **k)), comp[0][1], 1e-13, 'jones_adapter:%s:passthrough' % name, '2-D input through the adapter')
     ctx.require(getattr(P, name) is f, 'jones_adapter:global-side-effect', 'jones_adapter replaced prysm.propagation.%s' % name)
+    # a second polarised propagation (other field, same shapes) must leave the first result untouched: the caller owns it
+    keep = got.copy()
+    E2 = cplx(seed, shape + (2, 2), 51)
+    got2 = np.asarray(ctx.call(g, E2, *a, **k))
+    U.check_equal(got, keep, 'jones_adapter:%s:result-overwritten-by-later-call' % name, 'first result changed after a second call of the same wrapped routine')
+    for i in range(2):
+        for j in range(2):
+            U.check_close(got2[..., i, j], np.asarray(ctx.call(f, np.ascontiguousarray(E2[..., i, j]), *a, **k)), 1e-13,
+                          'jones_adapter:%s:component' % name, 'second call, component [%d,%d]' % (i, j))
     # applying a spatially varying optic to a scalar field is the element-wise product
     A = cplx(seed, shape, 60)
     JA = np.asarray(ctx.call(pol.apply_polarization_optic, A, E))
